@@ -176,9 +176,103 @@ def handle_multi(c):
                                         ':sum' if any(sums) else ''), 'src': ' ; '.join(srcs)}
 
 
+def handle_relin(c):
+    """run_model at p0; then for every later point: set the inputs, compute_totals WITHOUT running the model
+    again.  The partials must be the exact derivatives at the current inputs."""
+    trees, cfg, n = c['trees'], c['config'], c['n']
+    fac = bool(c.get('force_alloc_complex'))
+    srcs = ['y%d = %s' % (j, G.pysrc(t)) for j, t in enumerate(trees)]
+
+    def pvals(pt):
+        return {G.VARS[i]: np.array(pt['flat'][str(i)], dtype=float) for i in c['vars']}
+
+    vals0 = pvals(c['points'][0])
+    kw = {nm: {'val': v.copy()} for nm, v in vals0.items()}
+    for j in range(len(trees)):
+        kw['y%d' % j] = {'val': np.zeros(n)}
+    opts = {}
+    if cfg == 'diag':
+        opts['has_diag_partials'] = True
+    if cfg == 'nocolor':
+        opts['do_coloring'] = False
+    p = om.Problem()
+    comp = om.ExecComp(srcs, **opts, **kw)
+    p.model.add_subsystem('c', comp)        # inputs unconnected (auto_ivc): set_val('c.x') changes them directly
+    p.setup(force_alloc_complex=fac)
+    for nm, v in vals0.items():
+        p.set_val('c.' + nm, v)
+    p.run_model()
+    ofs = ['c.y%d' % j for j in range(len(trees))]
+    wrt = ['c.' + nm for nm in vals0]
+    msgs, sig = [], ''
+    colored = False
+    for ip, pt in enumerate(c['points']):
+        vals = pvals(pt)
+        if ip > 0:
+            for nm, v in vals.items():
+                p.set_val('c.' + nm, v)      # no run_model
+        J = p.compute_totals(of=ofs, wrt=wrt, return_format='dict')
+        colored = colored or comp._coloring_info.coloring is not None
+
+        def env_at(k):
+            return [float(vals[G.VARS[j]][k if vals[G.VARS[j]].size > 1 else 0]) if j in c['vars'] else 0.0
+                    for j in range(3)]
+        for j, t in enumerate(trees):
+            used = G.vars_used(t)
+            for i in c['vars']:
+                nm = G.VARS[i]
+                Ji = np.array(J['c.y%d' % j]['c.' + nm], dtype=float).reshape(n, vals[nm].size)
+                for k in range(n):
+                    for l in range(vals[nm].size):
+                        if i not in used or (vals[nm].size > 1 and k != l):
+                            want = None
+                        else:
+                            want = G.ev(t, env_at(k), i, margin=False).d
+                        got = Ji[k, l]
+                        if want is None:
+                            if got != 0.0:
+                                msgs.append('step %d: d y%d[%d] / d %s[%d] = %r, must be exactly 0' % (ip, j, k, nm, l, got))
+                                sig = sig or 'relin-structural-zero'
+                        elif not (abs(got - want) <= 1e-9 * max(1.0, abs(want))):
+                            at_prev = ''
+                            if ip > 0:
+                                prev = pvals(c['points'][ip - 1])
+                                envp = [float(prev[G.VARS[j2]][k if prev[G.VARS[j2]].size > 1 else 0])
+                                        if j2 in c['vars'] else 0.0 for j2 in range(3)]
+                                dprev = G.ev(t, envp, i, margin=False).d
+                                if abs(got - dprev) <= 1e-9 * max(1.0, abs(dprev)):
+                                    at_prev = ' (= the derivative at the PREVIOUS inputs: stale)'
+                            msgs.append('step %d (%s): d y%d[%d] / d %s[%d] = %r, exact derivative at the current '
+                                        'inputs %r%s (%s; %s=%r; config %s, force_alloc_complex=%s)' % (
+                                            ip, 'after run_model' if ip == 0 else 'inputs changed, no run_model',
+                                            j, k, nm, l, got, want, at_prev, ' ; '.join(srcs), nm, vals[nm].tolist(),
+                                            cfg, fac))
+                            sig = sig or ('partial' if ip == 0 else 'partial-at-stale-inputs')
+    # finally re-run: outputs at the last inputs
+    p.run_model()
+    vals = pvals(c['points'][-1])
+    for j, t in enumerate(trees):
+        y = np.array(p.get_val('c.y%d' % j), dtype=float).ravel()
+        ns = dict(NPNS)
+        ns.update({nm: (v if v.size > 1 else float(v[0])) for nm, v in vals.items()})
+        ref = np.atleast_1d(np.asarray(eval(G.pysrc(t), {'__builtins__': {}}, ns), dtype=float)).ravel()
+        if ref.size == 1 and y.size > 1:
+            ref = np.full(y.size, ref[0])
+        if y.shape != ref.shape or not np.all(np.abs(y - ref) <= 1e-10 * np.maximum(1.0, np.abs(ref))):
+            msgs.append('output y%d %r differs from NumPy evaluation %r' % (j, y.tolist()[:4], ref.tolist()[:4]))
+            sig = sig or 'output'
+    return {'res': '__none__', 'ok': not msgs, 'msg': '; '.join(msgs[:3]), 'sig': sig,
+            'kind': 'relin%d:%s:%s%s%s:steps%d' % (len(trees), cfg, 'arr' if n > 1 else 'scalar',
+                                                 ':fac' if fac else '', ':colored' if colored else '',
+                                                 len(c['points']) - 1),
+            'src': ' ; '.join(srcs)}
+
+
 def handle(c):
     if c.get('multi'):
         return handle_multi(c)
+    if c.get('relin'):
+        return handle_relin(c)
     tree, cfg = c['tree'], c['config']
     names = [G.VARS[i] for i in c['vars']]
     shape = tuple(c['shape'])
